@@ -60,6 +60,7 @@ type Scenario struct {
 	Points    []string     `json:"points"`    // when set: the only points that are scheduling choices
 	Internal  bool         `json:"internal"`  // cardinality metrics on
 	NoQuiesce bool         `json:"noquiesce"` // do not run the final quiescent pass
+	Sanitize  bool         `json:"sanitize"`  // root created with SanitizeOptions (alphanumeric and '_', replacement '_'): tag keys / values given to Tagged are rewritten
 }
 
 // gauge payload tables: token -> float64 bit pattern
@@ -406,7 +407,11 @@ func (r *coreRun) runThread(ts ThreadSpec) {
 			ni := &scopeInfo{}
 			if op.Tags != nil {
 				ns = p.s.Tagged(op.Tags)
-				ni.prefix, ni.tags = p.prefix, mergeTags(p.tags, op.Tags)
+				tg := op.Tags
+				if r.sc.Sanitize {
+					tg = coreSanitizeMap(tg)
+				}
+				ni.prefix, ni.tags = p.prefix, mergeTags(p.tags, tg)
 			} else {
 				ns = p.s.SubScope(op.Name)
 				ni.prefix, ni.tags = qualify(p.prefix, op.Name), p.tags
@@ -563,6 +568,10 @@ func newCoreRun(sc *Scenario, withSched bool) *coreRun {
 		}
 	}
 	opts := tally.ScopeOptions{OmitCardinalityMetrics: !sc.Internal}
+	if sc.Sanitize {
+		vc := tally.ValidCharacters{Ranges: tally.AlphanumericRange, Characters: tally.UnderscoreCharacters}
+		opts.SanitizeOptions = &tally.SanitizeOptions{NameCharacters: vc, KeyCharacters: vc, ValueCharacters: vc, ReplacementCharacter: '_'}
+	}
 	var cerr error
 	if sc.CloseErr {
 		cerr = errReporterClose
@@ -601,3 +610,21 @@ func newCoreRun(sc *Scenario, withSched bool) *coreRun {
 }
 
 func (r *coreRun) doneClosed() bool { return r.rootDone }
+
+// coreSanitizeMap is the harness's own rendering of what the Sanitize scenarios' options do to a tag map
+func coreSanitizeMap(m map[string]string) map[string]string {
+	f := func(s string) string {
+		b := []byte(s)
+		for i, c := range b {
+			if !(c >= 'a' && c <= 'z' || c >= 'A' && c <= 'Z' || c >= '0' && c <= '9' || c == '_') {
+				b[i] = '_'
+			}
+		}
+		return string(b)
+	}
+	out := map[string]string{}
+	for k, v := range m {
+		out[f(k)] = f(v)
+	}
+	return out
+}
